@@ -622,6 +622,14 @@ fn last_entry_is_block_scalar(yaml: &str) -> bool {
 /// over `default_markdown()` that `parse` applies): every string character for character, in particular the final
 /// line break of a block scalar, also where it is the last entry of the front-matter.
 fn frontmatter_parser_oracle(d: &DocumentConfig, yaml: &str) -> (Vec<(String, String)>, &'static str) {
+    // the emitter ends a block scalar whose value ends in U+2028 / U+2029 / NEL with THAT character (a line break to
+    // YAML) and writes no line feed behind it: placed in front of `---` the delimiter is not on a line of its own for
+    // scrut (whose lines end at line feeds only). Such a text is no front-matter that anybody can write between two
+    // `---` lines without adding a line feed, i.e. without changing the value: outside this stream (the direct
+    // round trip of `front-matter-oracle` covers the value). A false alarm of the thorough tier until this guard.
+    if !yaml.ends_with('\n') {
+        return (vec![], "fmp:not-line-terminated");
+    }
     let want = DocumentConfig::default_markdown().with_overrides_from(d);
     let class = if last_entry_is_block_scalar(yaml) { "C17:frontmatter-last-block-scalar" } else { "C17:frontmatter-through-parser" };
     match fm_through_parser(yaml) {
